@@ -11,6 +11,7 @@ CONSTANTS
   Mutate = TRUE
   Dedup = TRUE
   Validate = TRUE
+  AllowUnrigged = FALSE
 SPECIFICATION Spec
 INVARIANTS L2CallerUntouched
 CHECK_DEADLOCK FALSE
